@@ -15,11 +15,22 @@ fn kinds() -> Vec<Fault> {
     vec![Fault::Error("injected".into()), Fault::Unbounded, Fault::Perturbed(1e-6), Fault::Perturbed(1e-3), Fault::FarOff(1e3), Fault::FarOff(-100.0)]
 }
 
+/// single-fault plans additionally use an 'optimal' point whose coordinates are NaN (it is in no polytope either).
+/// Infinite coordinates are not used: the library mirrors +inf to -inf, which `contains` accepts for a region that
+/// is unbounded in that direction - a consistent certificate the property does not rule out.
+fn kinds_single() -> Vec<Fault> {
+    let mut v = kinds();
+    v.push(Fault::FarOff(f64::NAN));
+    v
+}
+
 fn kind_name(f: &Fault) -> &'static str {
     match f {
         Fault::Error(_) => "Error",
         Fault::Unbounded => "Unbounded",
         Fault::Perturbed(e) => if *e < 1e-4 { "Perturbed(1e-6)" } else { "Perturbed(1e-3)" },
+        Fault::FarOff(o) if o.is_nan() => "FarOff(NaN)",
+        Fault::FarOff(o) if o.is_infinite() => "FarOff(inf)",
         Fault::FarOff(o) => if *o > 0.0 { "FarOff(+1e3)" } else { "FarOff(-1e2)" },
     }
 }
@@ -126,7 +137,7 @@ pub fn run_program(c: &HCase, tier: Tier) -> CaseOut {
     // bound 1: every single position x kind; the run is re-observed (later calls may shift)
     let mut reached_single = 0u64;
     for i in 0..n {
-        for k in &ks {
+        for k in &kinds_single() {
             let (_, inj) = run_plan(&pr, &[(i, k.clone())], &rec, &mut out);
             reached_single += (inj > 0) as u64;
         }
@@ -199,7 +210,7 @@ pub fn cache_under_witness_faults(tier: Tier) -> CaseOut {
         let n = hooks::calls();
         hooks::clear();
         for i in 0..n {
-            for k in [Fault::Perturbed(1e-6), Fault::Perturbed(1e-3), Fault::FarOff(1e3), Fault::FarOff(-100.0), Fault::FarOff(3.0)] {
+            for k in [Fault::Perturbed(1e-6), Fault::Perturbed(1e-3), Fault::FarOff(1e3), Fault::FarOff(-100.0), Fault::FarOff(3.0), Fault::FarOff(f64::NAN)] {
                 let mut t = pr.before.clone();
                 hooks::set_plan(vec![(i, k.clone())]);
                 let res = pr.last.run(&mut t, pr.d);
@@ -231,7 +242,7 @@ pub fn run(tier: Tier) -> Report {
     rep.absorb(total);
     let reached = rep.coverage.get("plans_fault_reached").and_then(|v| v.as_u64()).unwrap_or(0);
     rep.set("distinct_nontrivial", reached);
-    rep.set("rule", "programs: every k-th history of the C03 space (ending in infeasible_elimination or a pruned composition); per program the fault-free run fixes the number N of LP calls; plans: no fault, every single call index x {Error, Unbounded, Perturbed(1e-6), Perturbed(1e-3), FarOff(+1e3), FarOff(-1e2)}, every pair of indices (< N+2) x kind pairs when N <= limit, every subset of >= 3 indices x {Error, Unbounded, Perturbed(1e-3), FarOff} when N is small; one evaluation per (program, plan); non-trivial = every fault of the plan was actually injected (the call index was reached); distinct by enumeration");
+    rep.set("rule", "programs: every k-th history of the C03 space (ending in infeasible_elimination or a pruned composition); per program the fault-free run fixes the number N of LP calls; plans: no fault, every single call index x {Error, Unbounded, Perturbed(1e-6), Perturbed(1e-3), FarOff(+1e3), FarOff(-1e2), FarOff(NaN)}, every pair of indices (< N+2) x kind pairs when N <= limit, every subset of >= 3 indices x {Error, Unbounded, Perturbed(1e-3), FarOff} when N is small; one evaluation per (program, plan); non-trivial = every fault of the plan was actually injected (the call index was reached); distinct by enumeration");
     rep.set("bound", match tier {
         Tier::Quick => "every 3001st history of the C03 quick space (about 300 programs); pairs for N <= 8; full subsets for N <= 4",
         Tier::Thorough => "every 251st history of the C03 quick space (about 3600 programs); pairs for N <= 14; full subsets for N <= 6",
